@@ -2,6 +2,7 @@ import NmfuModel.Parse
 import NmfuModel.Explore
 import NmfuModel.Rt
 import NmfuModel.NoSpin
+import NmfuModel.Labels
 open Nmfu
 
 def splitBar (s : String) : List String := Id.run do
@@ -192,6 +193,18 @@ def cmdSpin (args : List String) : String :=
     | .error e => s!"error parse {e}"
   | _ => "error bad-args"
 
+def cmdLabels (args : List String) : String :=
+  match args with
+  | [opts, m] =>
+    match parseMachine m with
+    | .ok M =>
+      let c : RtCtx := { M := M, ro := parseRtOpts opts }
+      let o := c.semOpts
+      let j (l : List String) := " ".intercalate l.eraseDups
+      s!"feed.labels={j (M.feedLabels o.strictDone)} ;; feed.gotos={j (M.feedGotos o)} ;; end.labels={j M.endLabels} ;; end.gotos={j (M.endGotos o)}"
+    | .error e => s!"error parse {e}"
+  | _ => "error bad-args"
+
 def handle (line : String) : String :=
   match splitBar line with
   | "equiv" :: args => cmdEquiv args
@@ -199,6 +212,7 @@ def handle (line : String) : String :=
   | "rt" :: args => cmdRt args
   | "wf" :: args => cmdWf args
   | "spin" :: args => cmdSpin args
+  | "labels" :: args => cmdLabels args
   | "ping" :: _ => "pong"
   | _ => "error unknown-command"
 
